@@ -511,6 +511,31 @@ fn wrong_typed(r: &mut Rng, j: &J) -> J {
     }
 }
 
+/// Number tokens that serde_json would print differently (`-0`, `1e2`, an integer beyond u64) are replaced by
+/// the spelling serde_json prints; returns whether anything changed.  The model treats the number tokens of a
+/// `Value` payload as opaque atoms (assumption: a WRITTEN token reads back and prints as itself), so a foreign
+/// spelling inside an accepted document is outside what the correspondence compares; typed fields refuse
+/// these spellings on both sides and keep them.
+fn canon_nums(j: &mut J) -> bool {
+    match j {
+        J::Num(t) => match serde_json::from_str::<Value>(t) {
+            Ok(v) => {
+                let c = v.to_string();
+                if c != *t {
+                    *t = c;
+                    true
+                } else {
+                    false
+                }
+            }
+            Err(_) => false,
+        },
+        J::Arr(xs) => xs.iter_mut().fold(false, |acc, x| canon_nums(x) | acc),
+        J::Obj(ms) => ms.iter_mut().fold(false, |acc, (_, x)| canon_nums(x) | acc),
+        _ => false,
+    }
+}
+
 /// one malformed / unusual variation of a well-formed document; returns a label
 fn mutate(r: &mut Rng, doc: &mut Vec<(String, J)>, v: &Value, nvariants: usize) -> &'static str {
     let n = doc.len();
@@ -1120,7 +1145,14 @@ fn main() {
                 label = format!("{label}+{m}");
             }
             let mut text = String::new();
-            print_json(&J::Obj(doc), &mut text);
+            let mut doc = J::Obj(doc);
+            print_json(&doc, &mut text);
+            if malformed && serde_json::from_str::<Event>(&text).is_ok() && canon_nums(&mut doc) {
+                // the variation put a foreign number spelling into a `Value` payload of a document the reader accepts
+                text.clear();
+                print_json(&doc, &mut text);
+                label = format!("{label}(numbers as serde_json spells them)");
+            }
             // one in four well-formed documents also goes through a text-level variation (as a separate case)
             if !malformed && text.chars().count() <= TEXT_LIMIT && r.chance(1, 4) {
                 let (t2, l2) = mutate_text(&mut r, &text);
